@@ -179,10 +179,29 @@ fn pairs(tier: Tier) -> Vec<(f64, f64, usize)> {
     for (o, c) in [(0.91875, 147usize), (0.91875, 441), (0.96, 480), (0.7, 7), (1.2, 12), (1.1, 11), (0.35, 7), (0.45, 9), (1.7, 17), (0.48, 480)] {
         v.push((o, 2.0, c));
     }
+    // original ratios at the ends of the f64 range: the bounds (and the targets between them)
+    // are subnormal or close to overflow
+    for (o, m) in [(4.0e-308, 4.0), (1.0e-300, 2.0), (1.0e300, 2.0), (4.0e307, 4.0)] {
+        v.push((o, m, 4));
+    }
     v
 }
 
 fn cfgs_for(orig: f64, m: f64, chunk: usize) -> Vec<Cfg> {
+    if orig < 1e-100 {
+        // the fixed-output types would ask for chunk / ratio input frames
+        return vec![
+            Cfg::sinc(Kind::SI, orig, m, chunk, 8, 2, Interp::Cubic, Kernel::Probe),
+            Cfg::fast(Kind::FI, orig, m, chunk, Degree::Cubic),
+        ];
+    }
+    if orig > 1e100 {
+        // the fixed-input types would produce chunk * ratio output frames
+        return vec![
+            Cfg::sinc(Kind::SO, orig, m, chunk, 8, 2, Interp::Linear, Kernel::Dispatch),
+            Cfg::fast(Kind::FO, orig, m, chunk, Degree::Septic),
+        ];
+    }
     vec![
         Cfg::sinc(Kind::SI, orig, m, chunk, 8, 2, Interp::Cubic, Kernel::Probe),
         Cfg::sinc(Kind::SO, orig, m, chunk, 8, 2, Interp::Linear, Kernel::Dispatch),
@@ -492,7 +511,11 @@ impl Check for C12 {
             rel.extend([1.0, (1.0 + m) / 2.0, 2.0 / (1.0 + m)]);
             rel.extend(specials());
             for cfg in cfgs_for(orig, m, chunk) {
-                for prefix in prefixes(m) {
+                // at the ends of the f64 range only the setters are exercised (a processing call at
+                // a ratio of 1e-300 is outside the explored bounds of every check)
+                let extreme = !(1e-100..=1e100).contains(&orig);
+                let pref = if extreme { vec![vec![], vec![Op::R(if m > 1.0 { (1.0 + m) / 2.0 } else { 1.0 }, true)]] } else { prefixes(m) };
+                for prefix in pref {
                     acc.states += 1;
                     for &v in &abs {
                         for ramp in [false, true] {
@@ -504,7 +527,9 @@ impl Check for C12 {
                             check_ratio_call(&mut acc, &cfg, &prefix, Op::R(x, ramp), journal)?;
                         }
                     }
-                    check_chunk_calls(&mut acc, &cfg, &prefix, journal)?;
+                    if !extreme {
+                        check_chunk_calls(&mut acc, &cfg, &prefix, journal)?;
+                    }
                 }
                 if acc.samples.is_empty() {
                     acc.samples.push(json!({"cfg": cfg.short(), "state": "P R(hi,T)", "abs_args": abs.iter().take(16).map(|x| format!("{:?}", x)).collect::<Vec<_>>(), "rel_args": rel.iter().take(12).map(|x| format!("{:?}", x)).collect::<Vec<_>>()}));
